@@ -476,6 +476,37 @@ def run_shard(spec, shard):
 
     drive(rng(), max(2, spec["threads"] // 2), spec["seed"] + 2, rbody)
 
+    def ebody(r):
+        # every thread evaluates comparisons between the SAME large containers of one shared document at the same
+        # time (the comparison of two containers takes long enough for threads to overlap inside it)
+        from vlib.ref import abnf
+        n = r.choice([3000, 20000, 60000])
+        leaf = r.choice([0, "x", None, 1.5])
+        shape = r.choice(["flat", "rows", "nested"])
+
+        def big(last):
+            if shape == "flat":
+                return [leaf] * n + [last]
+            if shape == "rows":
+                return [{"k": leaf, "j": [leaf]} for _ in range(n // 4)] + [{"k": last, "j": [leaf]}]
+            v = [last]
+            for _ in range(40):
+                v = [[leaf] * (n // 40), v]
+            return v
+        doc = {"a": big(1), "b": [big(2)], "c": [big(1)], "d": [big(1), big(2), big(True)]}
+        jobs = []
+        for q in r.sample(["$.b[?@ == $.a]", "$.b[?@ != $.a]", "$.c[?@ == $.a]", "$.c[?@ != $.a]", "$.d[?@ == $.a]", "$.d[?$.a != @]",
+                           "$.b[?@ <= $.a]", "$.c[?@ >= $.a]", "$.d[?@ == $.b[0]]"], 3):
+            jobs.append({"q": q, "ast": abnf.parse(q), "doc": 0})
+        case = {"kind": "threads", "jobs": jobs, "docs": [doc], "reps": 2}
+        shard.case(key=(n, shape, repr(leaf), tuple(j["q"] for j in jobs)), nontrivial=True,
+                   classes={"thread-round", "thread-round:same-containers-compared"}, sample={"container-comparison": [j["q"] for j in jobs], "n": n, "shape": shape})
+        f = examine(case)
+        if f:
+            shard.fail(f["bucket"], case, f)
+
+    drive(rng(), max(2, spec["threads"] // 3), spec["seed"] + 3, ebody)
+
     def lbody(r):
         lits = []
         for _ in range(6):
